@@ -177,6 +177,10 @@ pub mod verif {
     pub fn zobrist_scalars() -> (u64, u64) {
         (INITIAL, PLAYER_TO_MOVE)
     }
+    /// a hash value with the given raw bits (to rebuild a recorded repetition history when replaying)
+    pub fn zobrist_from_raw(hash: u64) -> Zobrist {
+        Zobrist { hash }
+    }
     pub fn zobrist_steps() -> Vec<u64> {
         STEP_VALUES.to_vec()
     }
